@@ -2,6 +2,7 @@ package harness
 
 import (
 	"fmt"
+	"strings"
 
 	"seehuhn.de/go/postscript"
 
@@ -156,14 +157,27 @@ func C12() *sim.Check {
 		}
 		n := len(in.Data)
 		var ps []int
-		if c.Tier == "thorough" || n <= 400 {
+		// an input that runs into the reader's own operation budget (millions of
+		// operations per call) is read at a sample of positions only
+		expensive := strings.Contains(refErr, "ErrExecutionLimitExceeded")
+		if expensive {
+			c.St.Inc("expensive_inputs_sampled_only")
+		}
+		if !expensive && (c.Tier == "thorough" || n <= 400) {
 			for p := 0; p <= n; p++ {
 				ps = append(ps, p)
 			}
 			c.St.Inc("inputs_with_every_split_position")
 		} else {
-			for i := 0; i < 64; i++ {
+			k := 64
+			if expensive {
+				k = 12
+			}
+			for i := 0; i < k; i++ {
 				ps = append(ps, t.Choose(n+1))
+			}
+			if expensive {
+				in.Marks = nil
 			}
 			for _, m := range in.Marks {
 				for d := -2; d <= 2; d++ {
